@@ -95,6 +95,7 @@ def gworld (t : Table) (v : View) : World M GV where
   throw cls := throw cls
   rethrow := throw "reraise"
   catchAll body handler := tryCatch body (fun _ => handler)
+  catchCls cls body handler := tryCatch body (fun e => if e == cls then handler else throw e)
 
 theorem find_isNone (c : String) : ∀ (cols : List Col),
     (cols.find? (fun k => k.name == c)).isNone = !decide (c ∈ cols.map (·.name))
